@@ -229,6 +229,15 @@ example : (∃ r, Bech32.Decode (Bytes.ofString "215830dl5257") = .ok r) ∧
     (∃ r, Bech32.Decode (Bytes.ofString "215830DL5257") = .ok r) ∧
     hamming (Bytes.ofString "5830dl5257") (Bytes.ofString "5830DL5257") = 2 :=
   ⟨(isOk_iff _).mp (by decide +kernel), (isOk_iff _).mp (by decide +kernel), by decide +kernel⟩
+/-- why `C03_bech32` excludes the replacement character `'1'` (hypothesis `h1'`): a substituted `'1'` becomes the
+    LAST separator, so the string is read with a longer human-readable part and a shorter data part, and the code
+    distance of the checksum says nothing about that reading. Witness (found by a syndrome search, confirmed on the
+    real decoder, recorded as a known finding): three substitutions in the data part of the valid
+    `bc1nrz3eet94sq5nw79mr3d` give `bc1nrz3e1sf4sq5nw79mr3d`, which is valid with hrp `bc1nrz3e`. -/
+example : (∃ r, Bech32.Decode (Bytes.ofString "bc1nrz3eet94sq5nw79mr3d") = .ok r) ∧
+    (∃ r, Bech32.Decode (Bytes.ofString "bc1nrz3e1sf4sq5nw79mr3d") = .ok r) ∧
+    hamming (Bytes.ofString "nrz3eet94sq5nw79mr3d") (Bytes.ofString "nrz3e1sf4sq5nw79mr3d") = 3 :=
+  ⟨(isOk_iff _).mp (by decide +kernel), (isOk_iff _).mp (by decide +kernel), by decide +kernel⟩
 end examples
 
 end Bch.Props.C03
